@@ -59,8 +59,14 @@ fn comps() -> impl Strategy<Value = Vec<u8>> {
     proptest::collection::vec(any::<u8>(), 1..=4)
 }
 
+/// thread targets: depth 1..4 as the property's quantifier says, and now and then deeper ones
+/// (the statement itself speaks of arbitrary paths)
+fn target_comps() -> impl Strategy<Value = Vec<u8>> {
+    prop_oneof![6 => proptest::collection::vec(any::<u8>(), 1..=4), 1 => proptest::collection::vec(any::<u8>(), 5..=7)]
+}
+
 fn strategy() -> impl Strategy<Value = Case> {
-    (cfgs(), proptest::collection::vec(comps(), 0..=2), proptest::collection::vec(comps(), 0..=2), proptest::collection::vec(comps(), 0..=2), proptest::collection::vec(comps(), 2..=4))
+    (cfgs(), proptest::collection::vec(comps(), 0..=2), proptest::collection::vec(comps(), 0..=2), proptest::collection::vec(comps(), 0..=2), proptest::collection::vec(target_comps(), 2..=4))
         .prop_map(|(cfg, pre, lower, removed, threads)| Case { cfg, pre, lower, removed, threads })
 }
 
@@ -177,7 +183,9 @@ fn check_case(case: &Case, cap: u64, max_bound: usize, random_after: u64, seed: 
 /// (b) free-running threads released by a barrier (adds evidence only; PhysicalFS stacks)
 fn stress_round(case: &Case) -> Result<(), String> {
     let built = setup(case)?;
-    let targets: Vec<String> = case.threads.iter().map(|t| path_of(t)).collect();
+    // every target twice: 4..8 truly parallel callers (no scheduler, no hooks installed)
+    let mut targets: Vec<String> = case.threads.iter().map(|t| path_of(t)).collect();
+    targets.extend(targets.clone());
     let barrier = std::sync::Arc::new(std::sync::Barrier::new(targets.len()));
     let outs: Vec<Outcome> = std::thread::scope(|s| {
         let hs: Vec<_> = targets
@@ -208,13 +216,22 @@ fn case_from_json(v: &Value) -> Option<Case> {
 
 pub fn replay(v: &Value) -> CaseResult {
     let case = case_from_json(v.get("case").unwrap_or(&Value::Null)).ok_or_else(|| Failure { message: "unparsable C17 replay".into(), replay: v.clone() })?;
+    if v.get("kind").and_then(|k| k.as_str()) == Some("c17-stress") {
+        // timing-dependent: many free-running rounds of the recorded path set
+        for round in 0..4000 {
+            if let Err(m) = stress_round(&case) {
+                return Err(Failure { message: format!("free-running round {}: {}", round, m), replay: v.clone() });
+            }
+        }
+        return Ok(());
+    }
     {
         let sched: Option<Vec<usize>> = v.get("schedule").and_then(|x| x.as_array()).map(|a| a.iter().filter_map(|y| y.as_u64().map(|z| z as usize)).collect());
         check_case(&case, 2500, 3, 200, 1, sched.as_deref()).map(|_| ())
     }
 }
 
-const RULE: &str = "2..4 threads, each one create_dir_all on a path of depth 1..4 over the names {a (62%), b, c} so that prefixes of every length are shared (identical, nested, sibling, disjoint targets); optional pre-existing directories, directories in the lower overlay layer, and directories created-and-removed before the concurrent phase (overlay deletion markers); stacks Mem, altroot(Mem), overlay[Mem,Mem(,Mem)], overlay on sub-paths, altroot(overlay), Phys, altroot(Phys), overlay with a Phys layer; schedules: decision at every MemoryFS lock acquisition and at PhysicalFS::create_dir, enumerated depth-first with iterative preemption bounding up to the cap (exhaustive when the tree fits), then random schedules; thorough adds barrier-released free-running stress rounds on the physical stacks; oracle: every call returns Ok and afterwards every requested path and each ancestor is a directory; non-trivial = >=2 threads whose targets share a non-empty prefix that does not exist beforehand, explored with >=1 preemption; evaluations = scheduled executions";
+const RULE: &str = "2..4 threads, each one create_dir_all on a path of depth 1..4 (one target in seven: depth 5..7) over the names {a (62%), b, c} so that prefixes of every length are shared (identical, nested, sibling, disjoint targets); optional pre-existing directories, directories in the lower overlay layer, and directories created-and-removed before the concurrent phase (overlay deletion markers); stacks Mem, altroot(Mem), overlay[Mem,Mem(,Mem)], overlay on sub-paths, altroot(overlay), Phys, altroot(Phys), overlay with a Phys layer; schedules: decision at every MemoryFS lock acquisition and at PhysicalFS::create_dir, enumerated depth-first with iterative preemption bounding up to the cap (exhaustive when the tree fits), then random schedules; PLUS barrier-released truly parallel rounds (4..8 OS threads, no scheduler) on every stack, which reach contention-dependent behaviour the cooperative scheduler cannot; oracle: every call returns Ok and afterwards every requested path and each ancestor is a directory; non-trivial = >=2 threads whose targets share a non-empty prefix that does not exist beforehand, explored with >=1 preemption; evaluations = scheduled executions";
 
 pub fn run(ctx: &RunCtx) -> i32 {
     // a single case explores thousands of schedules: keep shrinking short
@@ -250,19 +267,28 @@ pub fn run(ctx: &RunCtx) -> i32 {
         }
         Ok(())
     });
-    if failure.is_none() && ctx.tier == Tier::Thorough {
-        // (b) timing-dependent stress: adds evidence; a failure is reported with the case for replay under (a)
-        let (s2, f2) = run_sharded(ctx, "stress", 64, strategy, |c, st, counting| {
-            if !c.cfg.contains_phys() {
-                return Ok(());
-            }
-            for round in 0..200 {
+    if failure.is_none() {
+        // (b) truly parallel callers (timing-dependent; reaches what the cooperative scheduler
+        // cannot: behaviour that depends on a lock being CONTENDED, e.g. try_lock fast paths).
+        // A failure is a real counterexample to "all return success"; its replay re-runs the
+        // path set for many rounds.
+        let (ncases, rounds) = match ctx.tier {
+            Tier::Quick => (64u32, 60u64),
+            Tier::Thorough => (512, 400),
+        };
+        let stress_ctx = RunCtx { shrink_iters: 0, ..ctx.clone() };
+        let (s2, f2) = run_sharded(&stress_ctx, "stress", ncases, strategy, |c, st, counting| {
+            // physical stacks are slower: fewer rounds
+            let rounds = if c.cfg.contains_phys() { rounds / 4 } else { rounds };
+            for round in 0..rounds {
                 if let Err(m) = stress_round(c) {
-                    return Err(Failure { message: format!("free-running stress round {}: {}", round, m), replay: json!({"kind": "c17", "case": case_to_json(c), "schedule": []}) });
+                    return Err(Failure { message: format!("stack {} | {} free-running threads, round {}: {}", c.cfg.render(), c.threads.len() * 2, round, m), replay: json!({"kind": "c17-stress", "case": case_to_json(c)}) });
                 }
             }
             if counting {
-                st.label_n("stress_rounds", 200);
+                st.evaluations += rounds.saturating_sub(1);
+                st.label_n("parallel_stress_rounds", rounds);
+                st.label(&format!("stress_cfg:{}", c.cfg.shape()));
             }
             Ok(())
         });
@@ -275,8 +301,8 @@ pub fn run(ctx: &RunCtx) -> i32 {
         RULE,
         &stats,
         json!({"regress_replayed": reg.replayed, "schedule_cap_per_path_set": cap, "max_preemption_bound": max_bound}),
-        &["no concurrent removals and no files in the way, as the property states", "on PhysicalFS the interleaving granularity is the create_dir call (the OS serialises mkdir)", "the stress variant is timing-dependent and only ever adds evidence"],
+        &["no concurrent removals and no files in the way, as the property states", "on PhysicalFS the interleaving granularity is the create_dir call (the OS serialises mkdir)", "the parallel stress rounds are timing-dependent: they can only add evidence or produce a real counterexample, never a false one"],
         failure.is_some() as u32,
     );
-    finish(ctx, &stats, &failure, &[("distinct_nontrivial", 10)])
+    finish(ctx, &stats, &failure, &[("distinct_nontrivial", 10), ("parallel_stress_rounds", 1000)])
 }
